@@ -36,6 +36,9 @@
 (*     back as the untouched location itself although an item of mm covers  *)
 (*     it with an unknown (top / vecw) value (_Mem_read takes an unknown    *)
 (*     part of a zone object for an unwritten one);                         *)
+(*   StaleItems  iff the failing byte lies in two different items of the    *)
+(*     branch's own map (merge joins the recorded value of the earlier one  *)
+(*     although a later item overwrote it, and writes it last);             *)
 (*   TopPointerKey  under a complexity threshold a vector-valued pointer    *)
 (*     key of mi has become top in mm: the failing cell reads back as the   *)
 (*     untouched location (the store is kept under an unknown location).    *)
@@ -94,10 +97,17 @@ FailListed(envs) == {x \in {"i"} \X (1..Len(T.items)) \X {1, 2} \X {0} : ~Listed
 FailKeys == {x \in {"k"} \X (1..Len(T.items)) \X {0} \X {0} :
                T.items[x[2]].mm_has = 1 /\ T.items[x[2]].m1_has = 0 /\ T.items[x[2]].m2_has = 0}
 
+(* offsets (relative to p) a pointer key may denote: p+disp, or every alternative of a vector-valued base *)
+AltOff(b) == IF b.k = "reg" /\ b.n = "p" THEN {0}
+             ELSE IF b.k = "op" /\ b.s = "+" /\ b.l.k = "reg" /\ b.l.n = "p" /\ b.r.k = "cst" /\ AddrNat(b.r.v) >= 0 THEN {AddrNat(b.r.v)}
+             ELSE {}
+KeyOffs(loc) == IF loc.base.k = "vec" THEN {x + loc.disp : x \in UNION {AltOff(loc.base.l[i]) : i \in 1..Len(loc.base.l)}}
+                ELSE {x + loc.disp : x \in AltOff(loc.base)}
 (* the listed quirk: one memory key in both maps, m1's item narrower; the bytes m2's item exceeds m1's *)
-WiderSecond == {j \in 1..Len(T.items) : T.items[j].loc.k = "ptr" /\ T.items[j].loc.base.k = "reg" /\ T.items[j].m1_has = 1
+WiderSecond == {j \in 1..Len(T.items) : T.items[j].loc.k = "ptr" /\ T.items[j].m1_has = 1
                                         /\ T.items[j].m2_has = 1 /\ T.items[j].m1_w < T.items[j].m2_w}
-LostBytes == UNION {LET it == T.items[j] IN (it.loc.disp + it.m1_w \div 8)..(it.loc.disp + it.m2_w \div 8 - 1) : j \in WiderSecond}
+LostBytes == UNION {LET it == T.items[j] IN
+                    UNION {(d + it.m1_w \div 8)..(d + it.m2_w \div 8 - 1) : d \in KeyOffs(it.loc)} : j \in WiderSecond}
 (* byte b (0-based) of the value tree t is unknown: top / vecw, or the comp part covering it is *)
 RECURSIVE TopAt(_, _)
 TopAt(t, b) ==
@@ -108,15 +118,22 @@ TopAt(t, b) ==
   ELSE FALSE
 UnderTopItem(o) == \E j \in 1..Len(T.items) :
                      LET it == T.items[j] IN
-                     it.mm_has = 1 /\ it.loc.k = "ptr" /\ it.loc.base.k = "reg" /\ it.loc.disp <= o
-                     /\ o < it.loc.disp + it.mm_w \div 8 /\ TopAt(it.mm_item, o - it.loc.disp)
+                     it.mm_has = 1 /\ it.loc.k = "ptr"
+                     /\ \E d \in KeyOffs(it.loc) : d <= o /\ o < d + it.mm_w \div 8 /\ TopAt(it.mm_item, o - d)
 (* a vector-valued pointer key collapsed to top under the complexity threshold: the store is kept *)
 (* under an unknown location and the bytes it wrote in mi are not covered                       *)
 TopKey == \E j \in 1..Len(T.items) : T.items[j].mm_has = 1 /\ T.items[j].loc.k = "ptr" /\ T.items[j].loc.base.k = "top"
+(* the byte p+o lies in two different items of branch i's map: the recorded value of the earlier *)
+(* one is stale there                                                                         *)
+CoveredTwice(i, o) ==
+  Cardinality({j \in 1..Len(T.items) :
+                 LET it == T.items[j] has == IF i = 1 THEN it.m1_has ELSE it.m2_has w == IF i = 1 THEN it.m1_w ELSE it.m2_w IN
+                 has = 1 /\ it.loc.k = "ptr" /\ \E d \in KeyOffs(it.loc) : d <= o /\ o < d + w \div 8}) >= 2
 CellClass(x) ==
-  IF x[1] = "m" /\ x[3] = 2 /\ T.cells[x[2]].o \in LostBytes THEN "SkipWiderSecond"
-  ELSE IF x[1] = "m" /\ IsSelfMem(T.cells[x[2]].mm, T.cells[x[2]].o) /\ UnderTopItem(T.cells[x[2]].o) THEN "TopReadAsBottom"
+  IF x[1] = "m" /\ IsSelfMem(T.cells[x[2]].mm, T.cells[x[2]].o) /\ UnderTopItem(T.cells[x[2]].o) THEN "TopReadAsBottom"
   ELSE IF x[1] = "m" /\ IsSelfMem(T.cells[x[2]].mm, T.cells[x[2]].o) /\ TopKey /\ T.thr > 0 THEN "TopPointerKey"
+  ELSE IF x[1] = "m" /\ x[3] = 2 /\ T.cells[x[2]].o \in LostBytes THEN "SkipWiderSecond"
+  ELSE IF x[1] = "m" /\ x[3] \in {1, 2} /\ CoveredTwice(x[3], T.cells[x[2]].o) THEN "StaleItems"
   ELSE IF x[1] = "i" /\ x[2] \in WiderSecond /\ x[3] = 2 THEN "SkipWiderSecond"
   ELSE IF x[1] = "k" /\ T.items[x[2]].loc.k = "ptr" /\ T.items[x[2]].loc.base.k = "top" /\ T.thr > 0 THEN "TopPointerKey"
   ELSE ""
